@@ -496,6 +496,37 @@ Section Producer.
     end.
 End Producer.
 
+(* ---------------------------------------------------------------- specification predicates
+   (used by the statements of props/C07.v; no proofs here) *)
+
+(* [agreesb cC cV]: every value that Block::validate recomputes ([cV] = cv of the FINISHED
+   block) equals what Block::create wrote into the header from [cC] = cv of the half-built
+   block.  Field by field: see C07_agrees_fields. *)
+Definition agreesb (dbg : bool) (hchain : list N -> N) (cC cV : cvrec) : bool :=
+  let C := c_econ cC in
+  let V := c_econ cV in
+  match uadd dbg (e_total_fees_new C) (e_total_fees_atr C) with
+  | Ok tf => eqb_lN (guarded_fields V) (guarded_fields (set_total_fees C tf))
+  | _ => false
+  end
+  && (e_burnfee V =? e_burnfee C) && (e_difficulty V =? e_difficulty C)
+  && (c_total_rebroadcast_slips cV =? nsum (map t_atr_slips (c_rebroadcasts cC)))
+  && (c_rebroadcast_hash cV =? hchain (map t_id (c_rebroadcasts cC)))
+  && match c_fee_tx cC with
+     | Some f => match c_fee_tx cV with Some f' => t_id f' =? t_id f | None => false end
+     | None => true
+     end.
+
+(* what the pool may hold: no golden ticket (routed to the ticket map), no producer-only type *)
+Definition pool_tx_ok (t : tx) : bool :=
+  negb (is_type TGoldenTicket t) && negb (is_type TFee t) && negb (is_type TATR t).
+Definition pool_types_ok (l : list tx) : bool := forallb pool_tx_ok l.
+
+(* the transactions cv hands to create have the types create assumes *)
+Definition cv_types_ok (c : cvrec) : bool :=
+  forallb (is_type TATR) (c_rebroadcasts c)
+  && match c_fee_tx c with Some f => is_type TFee f | None => true end.
+
 (* ---------------------------------------------------------------- harness glue
    One production round with the Section variables instantiated by tables of what the real
    functions returned in that round: [cvC] = the ConsensusValues Block::create computed
